@@ -11,6 +11,8 @@ import (
 	"sync"
 	"time"
 
+	"go.starlark.net/starlark"
+
 	"verif/internal/canon"
 	"verif/internal/driver"
 )
@@ -25,7 +27,7 @@ const childProcs = "4"
 func init() {
 	driver.Register(&driver.Engine{
 		ID: "C05", Level: "exploration", Race: true,
-		Rule: "world arm: W generated modules (lists, dicts with string keys shorter/longer than 12 bytes, sets, tuples, nested/shared containers, structs, closures with captured state and mutable-looking defaults, bound methods, lambdas, big ints) are executed and thereby frozen; a case = (world, round): one base list of random operations (Starlark programs that read/index/slice/iterate/compare/hash/print/json-encode/call/store-and-refreeze/attempt mutation, and Go API calls: Freeze, Iterate, Elements/Entries push iterators, Equal/Compare/Binary, Get/Index/Slice, Call, Append/SetKey/Clear...) is shuffled per goroutine; each of the 16 shuffled lists is first run solo on a private copy of the world, then the 16 lists run concurrently (own starlark.Thread each, start barrier, no harness synchronisation while running) on ONE shared copy; program arm: 16 goroutines Init one shared *Program (from source, and decoded by CompiledProgram) with predeclared values that make half of the executions fail at various depths, then call its functions, rendering EvalError.Backtrace/CallStack positions (lazy line-table decoding). distinct = distinct (operation template, target objects) / (program variant, failure) combinations whose results were produced by >= 2 goroutines concurrently and compared with the solo run",
+		Rule: "world arm: 16 generated modules (lists, dicts with string keys shorter/longer than 12 bytes, sets, tuples, nested/shared containers, structs, closures with captured state and mutable-looking defaults, bound methods, lambdas, big ints) are executed and thereby frozen; a case = (world, round). Per case three fresh copies of the world are built: (1) first-use storm: 16 goroutines released together make the first Go API uses (Hash/String/Freeze/Len/Iterate/AttrNames) of every shared object in the same order; (2) main run: one base list of 160 random operations aimed at 8 randomly chosen shared objects (Starlark programs that read/index/slice/iterate/compare/hash/print/json-encode/call/store-and-refreeze/attempt mutation - 3 of 4 compiled once and the one *Program initialised by all goroutines, the rest compiled by every goroutine - and Go API calls: Freeze, Iterate, Elements/Entries push iterators, Equal/Compare/Binary, Get/Index/Slice, Call, Append/SetKey/Clear...) is run by 16 goroutines on ONE shared copy, each on its own starlark.Thread, released together, without harness synchronisation while running; even rounds: every goroutine runs its own shuffle, free-running; odd rounds: all run the same order, time-slotted, so that the same operation hits the same object at the same moment; (3) afterwards every goroutine's list is run solo on the private copy (with separately compiled programs) and all transcripts are compared; the shared copy must render identically before and after. program arm: 16 goroutines Init one shared *Program (from source, and decoded by CompiledProgram) with predeclared values that make half of the executions fail at various depths, then call its functions 48 times each, rendering EvalError.Backtrace/CallStack positions (lazy line-table decoding); the solo reference uses its own program instance. distinct = distinct (operation template, target objects) / (program, variant, failure) combinations whose results were produced by 16 goroutines concurrently and agreed with the solo run",
 		Assumptions: []string{
 			"Go race detector (-race build, GORACE halt_on_error=0 log_path=...; reports are read back from the log of each child; a self-provoked race per child proves the channel works)",
 			"happens-before race detection does not need the racing accesses to be simultaneous, only unordered; the harness therefore adds no synchronisation between worker goroutines while they run (overlap is measured from monotonic timestamps recorded locally)",
@@ -97,10 +99,20 @@ type listResult struct {
 
 // runList executes one operation list on e. It touches nothing shared with other goroutines
 // except the world itself (and the immutable ops).
-func runList(e *env, ops []*op, t0 time.Time, res *listResult) {
+//
+// With slot > 0 the list is time-slotted: op i is not started before t0 + i*slot (the goroutine
+// sleeps; sleeping creates no happens-before edge). Goroutines running the same list therefore
+// reach the same op at about the same moment, which matters for state the library writes only
+// once (lazily cached values): the detector remembers just the last few accesses to a word.
+func runList(e *env, ops []*op, t0 time.Time, slot time.Duration, res *listResult) {
 	res.out = make([]string, len(ops))
 	res.iv = make([]interval, 0, len(ops)*2)
 	for i, o := range ops {
+		if slot > 0 {
+			if d := time.Duration(i)*slot - time.Since(t0); d > 0 {
+				time.Sleep(d)
+			}
+		}
 		s := int64(time.Since(t0))
 		res.out[i] = o.exec(e)
 		en := int64(time.Since(t0))
@@ -112,7 +124,7 @@ func runList(e *env, ops []*op, t0 time.Time, res *listResult) {
 
 // runConcurrently runs lists[g] on goroutine g, all on the same world. The goroutines are
 // released together and do not synchronise with each other or with the caller until they end.
-func runConcurrently(w *world, lists [][]*op) []listResult {
+func runConcurrently(w *world, lists [][]*op, slot time.Duration) []listResult {
 	res := make([]listResult, len(lists))
 	envs := make([]*env, len(lists))
 	for g := range lists {
@@ -128,7 +140,7 @@ func runConcurrently(w *world, lists [][]*op) []listResult {
 			defer done.Done()
 			ready.Done()
 			<-start
-			runList(envs[g], lists[g], t0, &res[g])
+			runList(envs[g], lists[g], t0, slot, &res[g])
 		}(g)
 	}
 	ready.Wait()
@@ -216,11 +228,9 @@ func worldCase(c *driver.Ctx, rl *raceLog, sp *worldSpec, round, opsPerList int)
 		c.Inconclusive("%v", err)
 		return
 	}
+	// The shared copy is not touched (not even rendered) before the goroutines start: whatever
+	// the library computes lazily on first use must be computed under concurrency.
 	before := canon.Globals(solo.globals)
-	if b2 := canon.Globals(shared.globals); b2 != before {
-		c.Inconclusive("two executions of world %d differ: the module generator is not deterministic", sp.id)
-		return
-	}
 
 	// one base list, shuffled differently for every goroutine
 	// each round aims at a random subset of the shared objects, so that every one of them is
@@ -232,25 +242,52 @@ func worldCase(c *driver.Ctx, rl *raceLog, sp *worldSpec, round, opsPerList int)
 	mk := sp.view(focus).makers()
 	base := make([]*op, 0, opsPerList)
 	for len(base) < opsPerList {
-		if o := mk[r.Intn(len(mk))].make(r); o != nil {
+		if o := pickMaker(r, mk).make(r); o != nil {
 			base = append(base, o)
 		}
+	}
+	// Even rounds: every goroutine runs its own shuffle of the base list, free-running.
+	// Odd rounds ("lockstep"): all goroutines run the base list in the same order, time-slotted,
+	// so that all 16 perform the same operation on the same object at about the same moment.
+	lockstep := round%2 == 1
+	var slot time.Duration
+	if lockstep {
+		slot = 400 * time.Microsecond
+		c.Count("rounds_lockstep", 1)
+	} else {
+		c.Count("rounds_shuffled", 1)
 	}
 	lists := make([][]*op, nGoroutines)
 	perm := make([][]int, nGoroutines)
 	for g := range lists {
 		perm[g] = r.Perm(len(base))
+		if lockstep {
+			for i := range perm[g] {
+				perm[g][i] = i
+			}
+		}
 		lists[g] = make([]*op, len(base))
 		for i, p := range perm[g] {
 			lists[g][i] = base[p]
 		}
 	}
 
+	firstUseStorm(c, sp, solo)
+
+	// The concurrent run comes FIRST and the solo runs (private world copy, separately compiled
+	// programs) afterwards: process-wide state that the library initialises lazily is then
+	// first touched by 16 goroutines at once instead of being warmed up by the reference run.
+	got := runConcurrently(shared, lists, slot)
+
 	// solo runs: one list after the other, one goroutine, fresh thread, private world
 	t0 := time.Now()
 	want := make([]listResult, nGoroutines)
 	for g := range lists {
-		runList(newEnv(solo, 0, fmt.Sprintf("solo%d", g)), lists[g], t0, &want[g])
+		if lockstep && g > 0 {
+			want[g] = want[0] // the very same list: its solo run is the one just made
+			continue
+		}
+		runList(newEnv(solo, 0, fmt.Sprintf("solo%d", g)), lists[g], t0, 0, &want[g])
 		c.Count("solo_ops", len(lists[g]))
 	}
 	// sanity of the harness itself: ops are self-contained, so solo results must not depend on order
@@ -263,12 +300,11 @@ func worldCase(c *driver.Ctx, rl *raceLog, sp *worldSpec, round, opsPerList int)
 			if want[g].out[i] != first[p] {
 				c.Count("solo_order_dependent_ops", 1)
 				c.Inconclusive("solo result of %s depends on the position in the list (harness defect): %q vs %q", base[p].kind, driver.Truncate(first[p], 200), driver.Truncate(want[g].out[i], 200))
+				rl.check(c, map[string]any{"arm": "world", "world_id": sp.id, "round": round, "world": sp.src})
 				return
 			}
 		}
 	}
-
-	got := runConcurrently(shared, lists)
 
 	// ---- judge
 	c.Eval(nGoroutines * len(base))
@@ -364,6 +400,103 @@ func worldCase(c *driver.Ctx, rl *raceLog, sp *worldSpec, round, opsPerList int)
 	}
 }
 
+// catWeight is the relative frequency of each operation category.
+var catWeight = map[string]int{
+	"iterate": 6, "goiter": 4, "hash": 4, "freeze": 3, "store": 4, "compare": 4, "print": 3, "json": 2,
+	"read": 4, "index": 2, "slice": 2, "call": 4, "mutate": 6, "mutate-noop": 1,
+}
+
+// pickMaker chooses a category by weight, then a template of that category uniformly.
+func pickMaker(r *rand.Rand, mk []maker) maker {
+	total := 0
+	for _, m := range mk {
+		if m.first {
+			total += catWeight[m.cat]
+		}
+	}
+	n := r.Intn(total)
+	cat := ""
+	for _, m := range mk {
+		if m.first {
+			if n -= catWeight[m.cat]; n < 0 {
+				cat = m.cat
+				break
+			}
+		}
+	}
+	var in []int
+	for i, m := range mk {
+		if m.cat == cat {
+			in = append(in, i)
+		}
+	}
+	return mk[in[r.Intn(len(in))]]
+}
+
+// firstUseStorm: on one more fresh copy of the world, 16 goroutines released together each make
+// the first direct Go API uses (Hash, String, Freeze, Len, Truth, iteration, attribute listing)
+// of every shared object, all in the same order and without any interpreter work in between.
+// All first uses of an object thus fall within microseconds of each other, which is what it takes
+// for the detector to see an unsynchronised write-once (a lazily cached hash or string) next to
+// another goroutine's read. Results are compared with the same calls made alone.
+func firstUseStorm(c *driver.Ctx, sp *worldSpec, solo *world) {
+	w, err := sp.build()
+	if err != nil {
+		c.Inconclusive("%v", err)
+		return
+	}
+	ops := make([]*op, len(sp.names))
+	for x := range sp.names {
+		ops[x] = &op{kind: "go:first-use", cat: "storm", targets: []int{x}, desc: sp.names[x], run: func(e *env) string {
+			v := e.w.vals[x]
+			var b strings.Builder
+			h, herr := v.Hash()
+			fmt.Fprintf(&b, "%d %v|%s|%s %v %d|", h, herr, v.String(), v.Type(), v.Truth(), starlark.Len(v))
+			v.Freeze()
+			if it := starlark.Iterate(v); it != nil {
+				var e starlark.Value
+				for i := 0; i < 3 && it.Next(&e); i++ {
+					eh, eerr := e.Hash()
+					fmt.Fprintf(&b, "%s %d %v;", e.String(), eh, eerr)
+				}
+				it.Done()
+			}
+			if a, ok := v.(starlark.HasAttrs); ok {
+				fmt.Fprintf(&b, "|%v", a.AttrNames())
+			}
+			h2, _ := v.Hash()
+			fmt.Fprintf(&b, "|%d", h2)
+			return b.String()
+		}}
+	}
+	lists := make([][]*op, nGoroutines)
+	for g := range lists {
+		lists[g] = ops
+	}
+	got := runConcurrently(w, lists, 0)
+	var want listResult
+	runList(newEnv(solo, 0, "storm-solo"), ops, time.Now(), 0, &want)
+	c.Count("first_use_storms", 1)
+	c.Count("first_use_storm_ops", nGoroutines*len(ops))
+	c.Count("shared_ops", nGoroutines*len(ops))
+	c.Eval(nGoroutines * len(ops))
+	for g := range got {
+		c.Count("transcripts_compared", 1)
+		for i := range ops {
+			c.Count("transcript_entries_compared", 1)
+			if got[g].out[i] != want.out[i] {
+				key := "C05 transcript-differs go:first-use"
+				if strings.HasPrefix(got[g].out[i], panicMark) {
+					key = "C05 panic-when-shared go:first-use"
+				}
+				c.Violation(key, fmt.Sprintf("goroutine %d: first Go API use of %s on the shared world differs from the same calls made alone", g, sp.names[i]),
+					map[string]any{"object": sp.names[i], "solo": driver.Truncate(want.out[i], 3000), "shared": driver.Truncate(got[g].out[i], 3000), "world": sp.src})
+			}
+		}
+	}
+	c.Cover("op_kinds", "go:first-use")
+}
+
 func countTrue(b []bool) int {
 	n := 0
 	for _, x := range b {
@@ -405,4 +538,3 @@ func rejectionClass(out string) string {
 	return "other error: " + strings.Join(f, " ") + "…"
 }
 
-var _ = rand.Int
